@@ -100,8 +100,10 @@ func CurName() string {
 
 func register(name string) *G {
 	id := goid()
-	g := &G{Name: name, resume: make(chan struct{}), Born: opSeq}
 	mu.Lock()
+	opSeq++
+	g := &G{Name: name, resume: make(chan struct{}), Born: opSeq}
+	OpLog = append(OpLog, Op{Seq: opSeq, T: now().UnixNano(), G: name, Op: "born", Res: "ok"})
 	gs[id] = g
 	mu.Unlock()
 	return g
@@ -145,8 +147,18 @@ func Go(f func()) {
 	parent := curG()
 	parent.children++
 	name := fmt.Sprintf("%s.g%d", parent.Name, parent.children)
+	// all bookkeeping is done by the parent (the only running goroutine); the child only binds
+	// its goroutine id and parks
+	mu.Lock()
+	opSeq++
+	g := &G{Name: name, resume: make(chan struct{}), Born: opSeq}
+	OpLog = append(OpLog, Op{Seq: opSeq, T: now().UnixNano(), G: name, Op: "born", Res: "ok"})
+	mu.Unlock()
 	go func() {
-		g := register(name)
+		id := goid()
+		mu.Lock()
+		gs[id] = g
+		mu.Unlock()
 		defer unregister()
 		park(g, "born")
 		f()
@@ -209,6 +221,7 @@ type Fault struct {
 	Nth     int    `json:"nth"`     // fire on the n-th match (1-based); 0 = every match
 	Count   int    `json:"count"`   // how many times to fire when Nth==0 (0 = unlimited)
 	Errno   string `json:"errno"`   // EIO, EACCES, ENOENT, ENOSPC
+	Exact   bool   `json:"exact"`   // Path must equal the absolute path (default: substring)
 	Until   int    `json:"until"`   // only while fewer than Until edits have been applied (0 = always)
 	matched int
 	Fired   int `json:"fired"`
@@ -219,6 +232,9 @@ var EditsApplied int
 func checkFault(op, abs string) (string, bool) {
 	for _, f := range Faults {
 		if f.Op != "" && f.Op != op {
+			continue
+		}
+		if f.Exact && abs != f.Path {
 			continue
 		}
 		if f.Path != "" && !bytes.Contains([]byte(abs), []byte(f.Path)) {
